@@ -155,7 +155,7 @@ func (w *World) do1(a Action) {
 		} else if err != nil {
 			r = 2
 		}
-		tr.rec("apiret", int64(in.idx), aStart, r, 0)
+		tr.rec("apiret", int64(in.idx), aStart, r, 0, gid())
 	case "stop":
 		tr.rec("api", int64(in.idx), aStop, 0, 0, 0, 0, gid())
 		err := in.el.Stop()
@@ -165,7 +165,7 @@ func (w *World) do1(a Action) {
 		} else if err != nil {
 			r = 2
 		}
-		tr.rec("apiret", int64(in.idx), aStop, r, 0)
+		tr.rec("apiret", int64(in.idx), aStop, r, 0, gid())
 	case "stop_ctx":
 		ctx := context.Background()
 		var cancel context.CancelFunc = func() {}
@@ -187,7 +187,7 @@ func (w *World) do1(a Action) {
 		default:
 			r = 2
 		}
-		tr.rec("apiret", int64(in.idx), aStopCtx, r, 0)
+		tr.rec("apiret", int64(in.idx), aStopCtx, r, 0, gid())
 	case "validate", "validate_or_demote":
 		ctx := context.Background()
 		var cancel context.CancelFunc = func() {}
@@ -218,7 +218,7 @@ func (w *World) do1(a Action) {
 		} else if err != nil {
 			e = 2
 		}
-		tr.rec("apiret", int64(in.idx), code, b2i(ok), e)
+		tr.rec("apiret", int64(in.idx), code, b2i(ok), e, gid())
 	case "conn":
 		ev := map[string]int64{"disconnect": 1, "reconnect": 2, "closed": 3}[a.Ev]
 		tr.rec("api", int64(in.idx), aConn, ev, 0, 0, 0, gid())
@@ -238,7 +238,7 @@ func (w *World) do1(a Action) {
 				}
 			}
 		}
-		tr.rec("apiret", int64(in.idx), aConn, ev, 0)
+		tr.rec("apiret", int64(in.idx), aConn, ev, 0, gid())
 	case "ext_put":
 		val := []byte(a.Str)
 		if a.Hex != "" {
